@@ -445,6 +445,8 @@ class Normalizer:
                     continue
                 if isinstance(st, ast.Return) and st.value is not None:
                     continue
+                if isinstance(st, ast.Raise):
+                    continue          # a path that raises yields no value
                 if isinstance(st, ast.If) and simple(st.body) and simple(st.orelse):
                     continue
                 if isinstance(st, ast.Assign) and len(st.targets) == 1 and isinstance(st.targets[0], ast.Name):
@@ -486,6 +488,8 @@ class Normalizer:
                     continue
                 if isinstance(st, ast.Return) and st.value is not None:
                     continue
+                if isinstance(st, ast.Raise):
+                    continue          # a path that raises yields no value
                 if isinstance(st, ast.If) and simple(st.body) and simple(st.orelse):
                     continue
                 if isinstance(st, ast.Assign) and len(st.targets) == 1 and isinstance(st.targets[0], ast.Name):
